@@ -671,5 +671,65 @@ func extractC01() *lean {
 			l.def("c_"+n, "String", ".unknown_const_missing", nil)
 		}
 	}
+	// deepening round: more hand-copied constants / tables of the model
+	_, rtypes := parseFile("vcr/revocation/types.go")
+	if v, ok := c01Const(rtypes, "StatusList2021EntryType"); ok {
+		l.def("c_StatusList2021EntryType", "String", v, v)
+	} else {
+		l.def("c_StatusList2021EntryType", "String", ".unknown_const_missing", nil)
+	}
+	_, ldutils := parseFile("jsonld/ldutils.go")
+	if v, ok := c01Const(ldutils, "W3cStatusList2021Context"); ok {
+		l.def("c_W3cStatusList2021Context", "String", v, v)
+	} else {
+		l.def("c_W3cStatusList2021Context", "String", ".unknown_const_missing", nil)
+	}
+	if v, ok := c01Const(rtypes, "StatusList2021ContextURI"); ok {
+		l.def("c_StatusList2021ContextURI_expr", "String", fmt.Sprintf("%q", v), v)
+	}
+	// crypto/jwx.AlgorithmFitsKey: the `switch curve` table (curve name => the one algorithm that fits) and its default
+	{
+		_, algF := parseFile("crypto/jwx/algorithm.go")
+		var rows []string
+		var rowsJ [][2]string
+		def := ""
+		if fd := funcDecl(algF, "AlgorithmFitsKey"); fd != nil {
+			for _, st := range fd.Body.List {
+				sw, ok := st.(*ast.SwitchStmt)
+				if !ok || c01Expr(sw.Tag) != "curve" {
+					continue
+				}
+				for _, cc := range sw.Body.List {
+					cl := cc.(*ast.CaseClause)
+					ret := ".unknown_case_body"
+					if len(cl.Body) == 1 {
+						if rs, ok := cl.Body[0].(*ast.ReturnStmt); ok && len(rs.Results) == 1 {
+							ret = c01Expr(rs.Results[0])
+						}
+					}
+					if cl.List == nil {
+						def = ret
+						continue
+					}
+					for _, e := range cl.List {
+						bl, ok := e.(*ast.BasicLit)
+						alg := ""
+						if strings.HasPrefix(ret, "alg == jwa.") {
+							alg = strings.TrimPrefix(ret, "alg == jwa.")
+						}
+						if !ok || alg == "" {
+							rows = append(rows, ".unknown_curve_case")
+							continue
+						}
+						cv, _ := strconv.Unquote(bl.Value)
+						rows = append(rows, fmt.Sprintf("(%q, %q)", cv, alg))
+						rowsJ = append(rowsJ, [2]string{cv, alg})
+					}
+				}
+			}
+		}
+		l.def("curveAlgTable", "List (String × String)", "["+strings.Join(rows, ", ")+"]", rowsJ)
+		l.def("curveAlgDefault", "String", fmt.Sprintf("%q", def), def)
+	}
 	return l
 }
